@@ -176,6 +176,13 @@ class Gen:
                 b.append(f"#define {n} {rng.randint(0, 2)}")
             self.extra_names.append(f"H{i}_SEEN")
             self.texts[h] = self.protect(i, b)
+        # an umbrella header: nothing but #include lines (no #define / #undef / #pragma of its own), so whatever it
+        # contributes comes from the nested headers and depends on the including command's macros
+        umbrella = rng.random() < 0.5
+        if umbrella:
+            self.features.add("umbrella-header")
+            picks = rng.sample(headers, rng.randint(1, min(3, nh)))
+            self.texts["cb/include/all.h"] = [f'#include "{os.path.relpath(h, "cb/include")}"' for h in picks]
         if two_cfg:
             self.texts["cb/include/cfg.h"] = self.protect(90, ["#define CFG 1", "int cfg_one;"] + self.body(1, [], [3], False))
             self.texts["cb/inc2/cfg.h"] = self.protect(91, ["#define CFG 2", "int cfg_two;", "#undef A"] + self.body(1, [], [3], False))
@@ -193,6 +200,8 @@ class Gen:
             s = os.path.join(rng.choice(["cb/src", "cb", "cb/src/util"]), f"s{i}.{rng.choice(['c', 'cpp', 'cc'])}")
             sources.append(s)
             incs = inc_lines(s, headers)
+            if umbrella:
+                incs += [f'#include "{os.path.relpath("cb/include/all.h", os.path.dirname(s))}"'] * 2
             if computed:
                 incs.append("#include HDR")
                 self.features.add("computed-include")
@@ -200,6 +209,10 @@ class Gen:
             if rng.random() < 0.85:
                 # the usual shape of a source file: includes first, then code that tests what they defined
                 head = []
+                if umbrella and rng.random() < 0.7:
+                    head.append(f'#include "{os.path.relpath("cb/include/all.h", os.path.dirname(s))}"')
+                    hi0 = rng.randrange(nh)
+                    head += [f"#ifdef H{hi0}_SEEN", f"int seen_all{hi0};", "#else", f"int unseen_all{hi0};", "#endif"]
                 for hi in rng.sample(range(nh), rng.randint(1, min(2, nh))):
                     if rng.random() < 0.3:
                         head.append(f"#define {rng.choice(NAMES)} {rng.randint(0, 2)}")
